@@ -166,8 +166,12 @@ def gen_mod(rng, spec, protected, counter):
         import json as _json
 
         monthly = [w for w in cands if '"im"' in _json.dumps(w["formulas"])]
-        mod = ["annualize", pick(rng, monthly if monthly and chance(rng, 0.7) else cands)["name"]]
-        if chance(rng, 0.5):
+        target = pick(rng, monthly if monthly and chance(rng, 0.7) else cands)
+        mod = ["annualize", target["name"]]
+        # (for a stated period only when every formula of the rule starts on a first of
+        # January: "the formula in force at that January" and "the formula in force at the
+        # month asked for" are then the same formula, inside the period and outside it)
+        if chance(rng, 0.5) and all(s == "0001-01-01" or s[5:] == "01-01" for s in target["formulas"]):
             mod.append(pick(rng, sorted(WITHIN)))
         return mod
     g = ExprGen(rng, spec, i, "acyclic")
@@ -258,6 +262,18 @@ def generate(seed: int, tier: str) -> dict:
             new = f"S{len(specs)}"
             spec = copy.deepcopy(specs[src])
             mods = []
+            if chance(orr, 0.2):
+                # (one reform in five starts by annualising, for two or three years only, a
+                # monthly rule whose value depends on the month)
+                import json as _json
+
+                suit = [w for w in spec["variables"] if w["unit"] == "month" and w["formulas"] and w["name"] not in protected and not w.get("end")
+                        and not w.get("neutralized") and not w.get("annualized") and '"im"' in _json.dumps(w["formulas"])
+                        and all(s == "0001-01-01" or s[5:] == "01-01" for s in w["formulas"])]
+                if suit:
+                    m = ["annualize", pick(orr, suit)["name"], pick(orr, ["year:2018:2", "year:2017:3", "month:2018-01:24"])]
+                    mods.append(m)
+                    spec = apply_mod_to_spec(spec, m)
             for _ in range(orr.randint(1, 3)):
                 m = gen_mod(orr, spec, protected, counter)
                 mods.append(m)
